@@ -726,8 +726,15 @@ def step (s : St) (w : List String) : St × String :=
       if off > 1048576 ∨ take > 1048576 then (s, "bad-op") else
       -- the bytes of the range, exactly when the range lies inside the data (and a second part has its vector)
       let inside := off + take ≤ s.dq.ring.len
+      -- a view that does not cross the end of the storage (first physical part = the bytes up to the storage end)
+      -- must be handed out directly, with or without a continuation vector; one that crosses it needs the vector
+      let low := min s.dq.ring.len (s.dq.ring.max - s.dq.ring.off)
+      let contiguous := off ≥ low ∨ off + take ≤ low
+      let view := showB ((s.dq.ring.content.drop off).take take)
       let alts := if !inside then s!"ret=-1 msg=- guards=ok ; * || ret=-2 msg=- guards=ok ; *"
-        else s!"ret=0 msg={showB ((s.dq.ring.content.drop off).take take)} guards=ok ; * || ret=1 msg={showB ((s.dq.ring.content.drop off).take take)} guards=ok ; * || ret=-3 msg=- guards=ok ; *"
+        else if contiguous then s!"ret=0 msg={view} guards=ok ; *"
+        else if how != "novec" then s!"ret=1 msg={view} guards=ok ; *"
+        else s!"ret=-3 msg=- guards=ok ; *"
       match messageGet s.dq.ring off take (how != "novec") with
       | .ok (c, bytes) =>
         (s, s!"R ret={c} msg={if c < 0 then "-" else showB bytes} guards=ok | C avail={msgText s.dq} | I {dqI "0" s.dq} | S {alts}")
